@@ -26,7 +26,7 @@ pub fn ncpus() -> usize {
 
 pub fn worker_main(scn: &dyn Scenario, thorough: bool, seed: u64, w: usize, n: usize, wall_cap_s: u64) -> i32 {
     pin_to_cpu(w % ncpus());
-    amiquip_simrt::install_panic_hook(false);
+    amiquip_simrt::install_panic_hook(std::env::var("SIM_PANIC_PRINT").is_ok());
     let plan = scn.plan(thorough, seed);
     let out = std::io::stdout();
     let t0 = Instant::now();
@@ -247,7 +247,7 @@ pub fn replay_main(scn: &dyn Scenario, path: &str, show: bool) -> i32 {
     };
     let spec = CaseSpec::from_json(&v["case"]);
     let want = format!("{}|{}", v["violation"]["oracle"].as_str().unwrap_or(""), v["violation"]["sig"].as_str().unwrap_or(""));
-    amiquip_simrt::install_panic_hook(false);
+    amiquip_simrt::install_panic_hook(std::env::var("SIM_PANIC_PRINT").is_ok());
     let rep = scn.run_case(&spec, show);
     if show {
         for l in &rep.text {
@@ -280,7 +280,7 @@ pub fn minimise_main(scn: &dyn Scenario, inp: &str, outp: &str) -> i32 {
     let v: Value = serde_json::from_str(&txt).expect("json");
     let spec = CaseSpec::from_json(&v["case"]);
     let key = format!("{}|{}", v["violation"]["oracle"].as_str().unwrap_or(""), v["violation"]["sig"].as_str().unwrap_or(""));
-    amiquip_simrt::install_panic_hook(false);
+    amiquip_simrt::install_panic_hook(std::env::var("SIM_PANIC_PRINT").is_ok());
     let orig_len = spec.choices.as_ref().map(|c| c.len()).unwrap_or(0);
     let (best, replays) = minimise(scn, &spec, &key, 400, 60);
     // final run with text to record the trace
@@ -745,7 +745,7 @@ pub fn determinism_main(scn: &dyn Scenario, seed: u64, count: usize) -> i32 {
 
 pub fn hashes_main(scn: &dyn Scenario, seed: u64, w: usize, n: usize, count: usize) -> i32 {
     pin_to_cpu(w % ncpus());
-    amiquip_simrt::install_panic_hook(false);
+    amiquip_simrt::install_panic_hook(std::env::var("SIM_PANIC_PRINT").is_ok());
     let plan = scn.plan(false, seed);
     let mut i = w;
     while i < plan.len().min(count) {
